@@ -52,6 +52,41 @@ namespace sim
 		expires_after(expiry_time);
 	}
 
+	high_resolution_timer::high_resolution_timer(high_resolution_timer&& t) noexcept
+		: m_expiration_time(t.m_expiration_time)
+		, m_handler(std::move(t.m_handler))
+		, m_io_service(t.m_io_service)
+		, m_expired(t.m_expired)
+	{
+		t.m_handler = nullptr;
+		// the simulation knows an armed timer by its address. The pending wait
+		// moves along with the timer
+		if (!m_expired)
+		{
+			t.m_expired = true;
+			m_io_service->remove_timer(&t);
+			m_io_service->add_timer(this);
+		}
+	}
+
+	high_resolution_timer& high_resolution_timer::operator=(high_resolution_timer&& t) noexcept
+	{
+		if (&t == this) return *this;
+		cancel();
+		m_expiration_time = t.m_expiration_time;
+		m_handler = std::move(t.m_handler);
+		t.m_handler = nullptr;
+		m_io_service = t.m_io_service;
+		m_expired = t.m_expired;
+		if (!m_expired)
+		{
+			t.m_expired = true;
+			m_io_service->remove_timer(&t);
+			m_io_service->add_timer(this);
+		}
+		return *this;
+	}
+
 	high_resolution_timer::~high_resolution_timer()
 	{
 		cancel();
